@@ -67,6 +67,9 @@ SCHEMAS = {name: {int(k): {"publish": norm(v.get("publish")), "sign": norm(v.get
            for name, s in EXAMPLE["schemas"].items()}
 KSKS = {"ksk_current": skrgen.ksk("Kcur", 0), "ksk_next": skrgen.ksk("Knext", 1)}
 ZSKS = [skrgen.zsk(i) for i in range(8)]
+# two of the ZSKs that roll into each other share their 16-bit key tag (legal, about one pair in 65536): the timeline has to survive that
+_ta, _tb = ksrxml.POOL.rsa_tag_collision(8, 256, 1024)
+ZSKS[3], ZSKS[4] = ksrxml.mk_key(_ta, alg=8, ident="ZSK-twin-a"), ksrxml.mk_key(_tb, alg=8, ident="ZSK-twin-b")
 ksrxml.POOL.save()
 RP = dict(EXAMPLE["request_policy"], rsa_approved_key_sizes=[1024])
 CFG = ceremony.make_config({n: ceremony.ksk_def(k) for n, k in KSKS.items()},
